@@ -218,10 +218,12 @@ def crafted_events(tracer_cls, tkw, ice, antennas, rng):
     """list events with on-cone, off-cone, shadowed / far and below-weight particles, multi-particle events"""
     events = []
     a0 = antennas[0].position
-    for case in range(6):
+    for case in range(7):
         vertex = np.array([float(rng.choice([60, 150, 300])), float(rng.choice([-40, 0, 80])), float(rng.choice([-150, -400, -800]))])
         if case == 4:
             vertex = np.array([6000.0, 0.0, -30.0])        # far and shallow: shadowed in gradient ice
+        if case == 6:
+            vertex = np.array([float(a0[0]), float(a0[1]), float(a0[2]) - 250.0])   # exactly below antenna 0: vertical ray
         tr = tracer_cls(vertex, a0, ice_model=ice, **tkw)
         n = ice.index(vertex[2])
         theta_c = np.arccos(1 / n)
@@ -233,7 +235,7 @@ def crafted_events(tracer_cls, tkw, ice, antennas, rng):
         if np.linalg.norm(perp) < 1e-9:
             perp = np.array([1.0, 0.0, 0.0])
         on = rotate_about(e, perp, theta_c)
-        direction = on if case in (0, 1, 3, 4, 5) else -e          # case 2: off-cone
+        direction = on if case in (0, 1, 3, 4, 5, 6) else -e          # case 2: off-cone
         p1 = pyrex.Particle('nu_e', vertex, direction, 1e9, interaction_type='cc')
         p1.interaction.em_frac, p1.interaction.had_frac = 0.7, 0.3
         p1.survival_weight, p1.interaction_weight = 1.0, 1.0
@@ -251,7 +253,7 @@ def crafted_events(tracer_cls, tkw, ice, antennas, rng):
 
 def make_generator(kind, tracer_cls, tkw, ice, antennas, rng, workdir):
     if kind == 'list':
-        return pyrex.ListGenerator(crafted_events(tracer_cls, tkw, ice, antennas, rng)), 6
+        return pyrex.ListGenerator(crafted_events(tracer_cls, tkw, ice, antennas, rng)), 7
     if kind == 'cylindrical':
         return pyrex.CylindricalGenerator(dr=400, dz=600, energy=1e9, shadow=False), 3
     if kind == 'rectangular':
@@ -349,6 +351,10 @@ def record_events(combo, seed, workdir):
                 exc = ex
             thrown = gen.count - before
             obs = collapse(ctx.log)
+            for ai, ant in enumerate(ants):
+                handed = sum(1 for e in ctx.log if e['ev'] == '_Receive' and e['a'] == ai + 1)
+                if exc is None and len(ant.signals) != handed:
+                    obs.append({'ev': 'Exception', 'what': 'antenna %d holds %d signals after %d receive calls' % (ai + 1, len(ant.signals), handed)})
             for e in obs:
                 if e['ev'] == 'EvalTriggers':
                     e['nkeys'] = len(e.pop('keys'))
